@@ -284,6 +284,45 @@ def layout_sweep(rep):
                                   {**case, "impl": [chosen, opened, closed], "model": [fname(2 * mi), want_open, want_closed]})
         rep.count(1)
     rep.coverage["file_layouts_compared"] = len(layouts)
+    # the same rule for other forms of the requested path: pathlib.Path, names with spaces / unicode / several dots,
+    # a relative path; layouts: nothing there, the file there, the stale-tmp-plus-next-name case
+    import pathlib
+    for stem in ("out put", "résultat.v2", "a.b.c", "out"):
+        for form in ("str", "relative"):        # (a pathlib.Path is not accepted by the package: output_file is documented as str)
+            for pre_names in ([], ["{s}.h5"], ["{s}.h5.tmp", "{s}-1.h5"]):
+                with tempfile.TemporaryDirectory(prefix="pyt_c15p_") as td:
+                    pre = {}
+                    for nm in pre_names:
+                        nm = nm.format(s=stem)
+                        with open(os.path.join(td, nm), "wb") as f:
+                            f.write(b"user data " + nm.encode())
+                        pre[nm] = sha(os.path.join(td, nm))
+                    target = os.path.join(td, stem + ".h5")
+                    cwd = os.getcwd()
+                    case = {"stem": stem, "path_form": form, "preexisting": sorted(pre)}
+                    try:
+                        if form == "relative":
+                            os.chdir(td)
+                            arg = stem + ".h5"
+                        else:
+                            arg = pathlib.Path(target) if form == "Path" else target
+                        h = DataHandler(output_file=arg, logger=quiet)
+                        h.__enter__()
+                        chosen = os.path.basename(str(h.output_path))
+                        h.close()
+                        after = sorted(os.listdir(td))
+                    except Exception as e:  # noqa: BLE001
+                        rep.violation(f"creating / closing the output file raised {type(e).__name__}: {e}"[:160], case)
+                        continue
+                    finally:
+                        os.chdir(cwd)
+                    want = stem + ".h5" if not pre else (stem + "-1.h5" if len(pre) == 1 else stem + "-2.h5")
+                    if chosen != want or sorted(set(after) - set(pre)) != [want]:
+                        rep.violation(f"output name for path form {form!r}: chose {chosen!r}, directory {after}; expected the fresh name {want!r} only",
+                                      case)
+                    if not all(os.path.exists(os.path.join(td, n)) and sha(os.path.join(td, n)) == d for n, d in pre.items()):
+                        rep.violation("a pre-existing file was modified or removed while choosing a fresh output name", {**case, "after": after})
+                rep.count(1)
     return bad
 
 
